@@ -1275,6 +1275,30 @@ class PackVerRev(BruteVer):
         return f"verified by enumeration, pack offered that needs a reverse rule (prefix {self.prefix})"
 
 
+class PackVerSome(BruteVer):
+    """One strategy that verifies every class with prefix length >= minlen (counted by
+    enumeration) but offers a pack only for those whose prefix ends in one of
+    ``letters``: whether a verified class can be expanded depends on the class, not on
+    the type of its verification strategy."""
+
+    SETTINGS = ("minlen", "letters")
+
+    def __init__(self, minlen=1, letters="a", ignore_parent=False):
+        self.letters = str(letters)
+        BruteVer.__init__(self, minlen=int(minlen), prefixes=(), ignore_parent=ignore_parent)
+
+    def _settings_json(self):
+        return {"minlen": self.minlen, "letters": self.letters}
+
+    def pack(self, c: WC) -> StrategyPack:
+        if not self.verified(c) or not c.prefix or str(c.prefix)[-1] not in self.letters:
+            raise InvalidOperationError("no pack for this class")
+        return basic_pack(name=f"packversome{self.minlen}{self.letters}")
+
+    def formal_step(self) -> str:
+        return f"verified by enumeration (prefix length >= {self.minlen}), pack offered when the prefix ends in one of {self.letters!r}"
+
+
 STRATEGY_CLASSES = {
     "Expand": Expand,
     "SplitAtom": SplitAtom,
@@ -1292,6 +1316,7 @@ STRATEGY_CLASSES = {
     "BruteVer": BruteVer,
     "PackVer": PackVer,
     "PackVerRev": PackVerRev,
+    "PackVerSome": PackVerSome,
 }
 
 
